@@ -1028,6 +1028,15 @@ func (e *Engine) eval(f *frame, v ssa.Value) any {
 			if bv, ok := v.(BytesV); ok {
 				return SymStr{bytesE(bv)}
 			}
+			switch iv := v.(type) {
+			case int64, SymInt: // string(rune): encoded for ASCII code points only
+				code := intE(iv)
+				if !e.branch(SymBool{fmt.Sprintf("(and (<= 0 %s) (<= %s 127))", code, code)}) {
+					e.inconclusive = append(e.inconclusive, "string(rune) of a non-ASCII code point: UTF-8 encoding is not encoded")
+					panic(pathEnd{"UNSUPPORTED string(rune) outside ASCII"})
+				}
+				return SymStr{"(str.from_code " + code + ")"}
+			}
 		}
 		return v
 	case *ssa.MakeClosure:
@@ -1037,8 +1046,27 @@ func (e *Engine) eval(f *frame, v ssa.Value) any {
 		}
 		return Closure{x.Fn.(*ssa.Function), b}
 	case *ssa.Range:
-		m, _ := e.get(f, x.X).(*MapV)
-		return &mapIter{m: m}
+		switch xv := e.get(f, x.X).(type) {
+		case *MapV:
+			return &mapIter{m: xv}
+		case nil:
+			return &mapIter{}
+		case string, SymStr:
+			// range over a string decodes UTF-8: encoded for ASCII content only (bytes and runes coincide there)
+			ex := strE(xv)
+			if !e.branch(SymBool{"(str.in_re " + ex + " (re.* (re.range \"\\u{0}\" \"\\u{7f}\")))"}) {
+				e.inconclusive = append(e.inconclusive, "range over non-ASCII string at "+relPath(f.fn.Prog.Fset.Position(x.Pos()).String())+": UTF-8 decoding is not encoded")
+				panic(pathEnd{"UNSUPPORTED range over non-ASCII string"})
+			}
+			n := e.concretize(SymInt{"(str.len " + ex + ")"})
+			m := &MapV{}
+			for i := int64(0); i < n; i++ {
+				m.keys = append(m.keys, i)
+				m.vals = append(m.vals, SymInt{fmt.Sprintf("(str.to_code (str.at %s %d))", ex, i)})
+			}
+			return &mapIter{m: m}
+		}
+		panic(fmt.Sprintf("range over %T is not supported", e.get(f, x.X)))
 	case *ssa.Next:
 		it := e.get(f, x.Iter).(*mapIter)
 		if it.m == nil || it.i >= len(it.m.keys) {
